@@ -384,6 +384,18 @@ def run(prog: Program, res: Result, tier: str) -> None:
                                     "not foldable")
             cands.append((lab, a, p))
         itab = imp[cls]
+        if model.get("extra_unparsed"):
+            u = model["extra_unparsed"][0]
+            res.unrecognised("T-ROUNDTRIP", f"{cls}: every label assignment "
+                             "is modelled", efi.loc(u),
+                             f"`{norm(u, 70)}` sets the permutation label "
+                             "outside the table search in a form that is not "
+                             "understood")
+            continue
+        pre = [(l_, a_, p_) for l_, a_, p_, before, _c in model.get(
+            "extra", []) if before]
+        post = [(l_, a_, p_) for l_, a_, p_, before, _c in model.get(
+            "extra", []) if not before]
         # inverse tables
         for lab, a, p in cands:
             inst = f"{cls} label {lab}: exporter candidate == importer reading"
@@ -410,8 +422,8 @@ def run(prog: Program, res: Result, tier: str) -> None:
                 cells += 1
                 d = ("c",) + tau
                 chosen = None
-                for lab, a, p in cands:
-                    if G.equiv(cls, a, p, d, par):
+                for lab, a, p in pre + cands + post:
+                    if G.equiv(cls, a, par if p == "SAME" else p, d, par):
                         chosen = lab
                         break
                 if chosen is None:
